@@ -8,7 +8,7 @@ Dom(f) == CASE f = "kind" -> {"bw", "bb"} [] f = "text" -> {1, 2, 3}
             [] f = "threads" -> {1, 2, 6, 16} [] f = "parallel" -> {"auto", "yes", "no"} [] f = "single" -> {0, 1}
             [] f = "inmem" -> {0, 1} [] f = "unc" -> {0, 1} [] f = "bs" -> {0, 2, 5} [] f = "zooms" -> {0, 1}
             [] f = "style" -> {"native", "ucsc"} [] f = "invoke" -> {"own", "multicall", "mixedcase"}
-            [] f = "bthreads" -> {1, 4} [] f = "binmem" -> {0, 1} [] f = "restrict" -> {"none", "chrom", "range"}
+            [] f = "bthreads" -> {1, 4} [] f = "binmem" -> {0, 1} [] f = "restrict" -> {"none", "chrom", "range", "start", "end"}
 Init == cfg = <<>> /\ step = 1
 Next == step <= Len(Fields) /\ \E v \in Dom(Fields[step]) : cfg' = Append(cfg, v) /\ step' = step + 1
 Done == step > Len(Fields)
